@@ -1033,6 +1033,7 @@ func parseBetween(state *pars.State, result *pars.Result) error {
 	}
 	end := result.Value.(int)
 	if start+1 != end {
+		state.Pop()
 		return fmt.Errorf("%d^%d is not a valid location: coordinates should be adjacent", start, end)
 	}
 	result.SetValue(Between(start))
@@ -1075,6 +1076,7 @@ func parseRange(state *pars.State, result *pars.Result) error {
 	state.Advance()
 	c, err = pars.Next(state)
 	if err != nil {
+		state.Pop()
 		return err
 	}
 	partial3 := false
@@ -1159,6 +1161,7 @@ func parseJoin(state *pars.State, result *pars.Result) error {
 	}
 	state.Advance()
 	if err := multipleLocationParser(state, result); err != nil {
+		state.Pop()
 		return err
 	}
 	c, err := pars.Next(state)
@@ -1190,6 +1193,7 @@ func parseOrder(state *pars.State, result *pars.Result) error {
 	}
 	state.Advance()
 	if err := multipleLocationParser(state, result); err != nil {
+		state.Pop()
 		return err
 	}
 	c, err := pars.Next(state)
